@@ -49,6 +49,8 @@ func init() {
 			c.ruleChangeSearch()
 			c.min("R-CMP/search", 9)
 			c.ruleForcedPrune()
+			c.ruleChangePrune()
+			c.ruleUnfinalizedAncestor()
 			c.min("R-FORCEDPRUNE", 4)
 		})
 }
